@@ -26,3 +26,5 @@ def run(prog, rep):
     r_flow.run_forward(prog, rep, which=(), mode='Compression', rid='R-FORWARD-COMP', floor=8, backend=True)
     from ..rules import r_key
     r_key.run_handles_only(prog, rep)
+    r_io.run_dcpl(prog, rep)
+    r_io.run_growable(prog, rep)
